@@ -192,3 +192,87 @@ def get (env : Env Doc) (tolerated : List Str) : Nat → Cache Doc → Url → S
                 ⟨r.res, r.cache, u :: r.requests⟩
 
 end Jtp
+
+/-! ### Specification-side definitions for C03–C05 -/
+
+namespace Jtp
+open Str
+
+/-- Split at the first `"\r\n"`: the text before it and the text after it. -/
+def splitCRLF : Str → Option (Str × Str)
+  | [] => none
+  | '\r' :: '\n' :: rest => some ([], rest)
+  | c :: cs => match splitCRLF cs with
+    | some (a, b) => some (c :: a, b)
+    | none => none
+
+/-- All `"\r\n"`-terminated lines of a text, and the remainder after the last terminator. -/
+def crlfLines : Nat → Str → List Str × Str
+  | 0, s => ([], s)
+  | fuel + 1, s =>
+    match splitCRLF s with
+    | none => ([], s)
+    | some (l, rest) =>
+      let r := crlfLines fuel rest
+      (l :: r.1, r.2)
+
+/-- A strict HTTP/1.0 request reader: request line, header lines up to the first empty line,
+    and whatever follows the empty line (a body or a smuggled second request). -/
+structure Req where
+  requestLine : Str
+  headers : List Str
+  rest : Str
+  deriving Repr, DecidableEq
+
+def readHeaders : Nat → Str → Option (List Str × Str)
+  | 0, _ => none
+  | fuel + 1, s =>
+    match splitCRLF s with
+    | none => none
+    | some (l, rest) =>
+      if l.isEmpty then some ([], rest)
+      else match readHeaders fuel rest with
+        | some (hs, r) => some (l :: hs, r)
+        | none => none
+
+def parseReq (s : Str) : Option Req :=
+  match splitCRLF s with
+  | none => none
+  | some (rl, rest) =>
+    match readHeaders (rest.length + 1) rest with
+    | some (hs, r) => some ⟨rl, hs, r⟩
+    | none => none
+
+variable {Doc : Type}
+
+/-- The redirect chain a successful fetch follows, as a relation: `Chain u k d src` — starting at
+    `u`, after exactly `k` redirect hops the document `d` is served by `src`. -/
+inductive Chain (env : Env Doc) (tolerated : List Str) : Url → Nat → Doc → Url → Prop where
+  | done (u : Url) (resp body : Str) (d : Doc) :
+      env.https u = true → env.serve u = some resp → exchange tolerated resp = .doc body →
+      env.decode body = some d → Chain env tolerated u 0 d u
+  | hop (u t : Url) (resp v : Str) (k : Nat) (d : Doc) (src : Url) :
+      env.https u = true → env.serve u = some resp → exchange tolerated resp = .redirect v →
+      env.resolve u v = some t → Chain env tolerated t k d src → Chain env tolerated u (k + 1) d src
+
+/-- Every cache entry is a true fact about the (unchanged) servers. -/
+def Sound (env : Env Doc) (tolerated : List Str) (c : Cache Doc) : Prop :=
+  ∀ k e, (k, e) ∈ c.entries →
+    match e with
+    | .doc d src => src = k ∧ Chain env tolerated k 0 d k
+    | .redirect t => env.https k = true ∧ ∃ resp v, env.serve k = some resp ∧
+        exchange tolerated resp = .redirect v ∧ env.resolve k v = some t
+
+/-- The lines of a header block up to the first blank line, and the body after it. -/
+def splitHeaders : Nat → Str → Option (List Str × Str)
+  | 0, _ => none
+  | fuel + 1, s =>
+    match readLine s with
+    | none => none
+    | some (line, rest) =>
+      if isBlankLine line then some ([], rest)
+      else match splitHeaders fuel rest with
+        | some (ls, body) => some (line :: ls, body)
+        | none => none
+
+end Jtp
